@@ -48,6 +48,19 @@ def gen_lists(tier):
                         if tier == "quick" and (pattern + pi + li) % 2:
                             continue
                         yield {"k": "lists", "sizes": list(sizes), "pat": pattern, "var": variant, "place": place, "lab": lab}
+    # a list whose name contains a dot and has another list's name as its stem (c.1 next to c)
+    for sizes in ([1, 2, 0], [3, 1, 2]):
+        for variant in VARIANTS:
+            for place in ("top", "group", "repeat"):
+                for lab in ("plain", "lang"):
+                    yield {"k": "lists", "sizes": sizes, "pat": 6, "var": variant, "place": place, "lab": lab, "l1": "c.1"}
+    # a user-written choice named 'other' (first, middle, last) on a list used with or_other: nothing is appended
+    for sz in (2, 3):
+        for pos in range(sz):
+            for variant in ("or_other", "multi_or_other"):
+                for place in ("top", "repeat"):
+                    for lab in ("plain", "lang"):
+                        yield {"k": "lists", "sizes": [sz, 1, 0], "pat": 9, "var": variant, "place": place, "lab": lab, "userother": pos}
     # duplicate choice names, allowed by the setting
     for lab in ("plain", "lang"):
         yield {"k": "lists", "sizes": [3, 0, 0], "pat": 5, "var": "plain", "place": "top", "lab": lab, "dupnames": True}
@@ -103,11 +116,17 @@ def required_outcomes(tier):
 
 
 # ---------------------------------------------------------------- lists --------------
+def lists_of(case):
+    return [LISTS[0], case.get("l1", LISTS[1]), LISTS[2]]
+
+
 def build_lists(case):
     choices = []
-    for ln, sz in zip(LISTS, case["sizes"]):
+    for ln, sz in zip(lists_of(case), case["sizes"]):
         for i in range(sz):
-            ch = {"list_name": ln, "name": f"{ln}_{i}"}
+            ch = {"list_name": ln, "name": f"{ln}_{i}".replace(".", "_")}
+            if ln == "c" and case.get("userother") == i:
+                ch["name"] = "other"
             if case.get("dupnames") and i == 2:
                 ch["name"] = f"{ln}_0"
             if case["lab"] == "plain":
@@ -148,7 +167,7 @@ def build_lists(case):
     elif v == "unused":
         qs = [qs[0]]
     if case["sizes"][1]:
-        qs.append({"type": "select_one c1", "name": "t", "label": "T"})
+        qs.append({"type": f"select_one {lists_of(case)[1]}", "name": "t", "label": "T"})
     place = case["place"]
     if place == "top":
         rows = qs
@@ -179,7 +198,7 @@ def check_lists(case, wb, out, viol):
     for lg, d, texts in obs.itext:
         for tid, vals in texts:
             itx.setdefault(tid, {})[lg] = {form: el for form, el in vals}
-    for ln in LISTS:
+    for ln in lists_of(case):
         exp = [c for c in choices if c["list_name"] == ln]
         if not exp:
             if ln in insts:
@@ -207,7 +226,7 @@ def check_lists(case, wb, out, viol):
                 if k in c:
                     it.append((k, c[k]))
             want.append(it)
-        if ln in other_lists:
+        if ln in other_lists and case.get("userother") is None:
             idx = len(exp)
             want.append(([("itextId", f"{ln}-{idx}")] if lang else []) + [("name", "other")] + ([] if lang else [("label", "Other")]))
         if got != want:
@@ -282,7 +301,8 @@ def check_lists(case, wb, out, viol):
         if t_el is None:
             viol.append(("c1-select-missing", ""))
         else:
-            check_itemset(t_el, "c1", "instance('c1')/root/item", "t")
+            l1 = lists_of(case)[1]
+            check_itemset(t_el, l1, f"instance('{l1}')/root/item", "t")
     if v in ("or_other", "multi_or_other"):
         oth = ctrls.get(f"{base}/s_other")
         b = obs.bind_map().get(f"{base}/s_other", [None])[0]
